@@ -155,8 +155,11 @@ def polyhedron(rng, center, scale):
     if rng.random() < 0.5:
         F = F[:, ::-1]           # the whole mesh wound the other way round
     spec = {"prim": "polyhedron", "var": "x", "vertices": [[float(x) for x in v] for v in V], "faces": [[int(i) for i in f] for f in F]}
-    if rng.random() < 0.4:
+    r_ = rng.random()
+    if r_ < 0.4:
         spec["via_file"] = True
+    elif r_ < 0.6:
+        spec["soup"] = True          # vertices / faces given as a triangle soup with inconsistent winding
     return spec
 
 
@@ -194,7 +197,7 @@ def boolean(ctx, depth, center, scale, envs, nrows, relation_log):
         return prim(ctx, center, scale)
     for _ in range(25):
         op = str(rng.choice(["union", "cut", "isect"]))
-        rel = str(rng.choice(["overlap", "overlap", "contained", "disjoint", "abut"]))
+        rel = str(rng.choice(["overlap", "overlap", "contained", "disjoint", "abut", "tangent"]))
         a = boolean(ctx, depth - 1, center, scale, envs, nrows, relation_log)
         flag = False
         dimv = ctx.dim
@@ -221,6 +224,25 @@ def boolean(ctx, depth, center, scale, envs, nrows, relation_log):
             a = {"prim": "parallelogram", "var": "x", "origin": [x0, y0], "c1": [x0 + w1, y0], "c2": [x0, y0 + h]}
             b = {"prim": "parallelogram", "var": "x", "origin": [x0 + w1, y0], "c1": [x0 + w1 + w2, y0],
                  "c2": [x0 + w1, y0 + h]}
+        elif rel == "tangent":
+            if dimv == 1 or op != "union" or ctx.dep:
+                continue
+            # two balls touching from outside in exactly one point, or a disc resting on an edge of a rectangle
+            # (representable coordinates: the contact point is a boundary point of the union by construction)
+            c0 = np.array([round(float(v) * 4) / 4 for v in np.asarray(center, float)])
+            r1, r2 = [max(0.25, round(float(scale * rng.uniform(0.5, 1.1)) * 4) / 4) for _ in range(2)]
+            ball = "circle" if dimv == 2 else "sphere"
+            e0 = np.zeros(dimv)
+            e0[0] = 1.0
+            a = {"prim": ball, "var": "x", "center": [float(v) for v in c0], "radius": float(r1)}
+            if dimv == 2 and rng.random() < 0.4:
+                b = {"prim": "parallelogram", "var": "x", "origin": [float(c0[0] + r1), float(c0[1] - r2)],
+                     "c1": [float(c0[0] + r1 + r2), float(c0[1] - r2)], "c2": [float(c0[0] + r1), float(c0[1] + r2)]}
+            else:
+                b = {"prim": ball, "var": "x", "center": [float(v) for v in (c0 + (r1 + r2) * e0)], "radius": float(r2)}
+            if rng.random() < 0.5:
+                a, b = b, a
+            relation_log.append("contact@" + ",".join("%r" % float(v) for v in (c0 + r1 * e0)))
         else:
             off = rng.uniform(-.8, .8, dimv) * scale
             b = boolean(ctx, depth - 1, np.asarray(center, float) + off, scale * rng.uniform(0.6, 1.0), envs, nrows,
